@@ -758,6 +758,10 @@ class Engine:
             yr = to_z3(y, REAL)
             if _mentions(yr, [z3.Real('INF')]) or (getattr(self.c, 'inf_division', False) and not z3.is_rational_value(z3.simplify(yr))):
                 # np.inf is the real constant INF; IEEE division of a finite value by infinity is exactly 0 (not 1/INF > 0)
+                xr_ = z3.simplify(to_z3(x, REAL))
+                if getattr(self.c, 'inf_division', False) == 'ieee' and z3.is_rational_value(xr_) and xr_.numerator_as_long() > 0:
+                    # IEEE: a positive constant divided by zero is +infinity (numpy warns, or not under np.errstate(divide='ignore'))
+                    return z3.If(yr == z3.Real('INF'), z3.RealVal(0), z3.If(yr == 0, z3.Real('INF'), xr_ / yr))
                 return z3.If(yr == z3.Real('INF'), z3.RealVal(0), to_z3(x, REAL) / yr)
             return to_z3(x, REAL) / yr
         if isinstance(op, ast.FloorDiv):
@@ -1231,6 +1235,12 @@ class Engine:
         if node.name in self.callees:
             return [(st, 'fall')]
         raise OutOfSubset('nested function %s without a callee contract' % node.name)
+
+    def st_With(self, node, st):
+        # `with np.errstate(...):` only changes how floating-point warnings are reported: the body is executed as it stands
+        if len(node.items) == 1 and node.items[0].optional_vars is None and ast.unparse(node.items[0].context_expr).startswith('np.errstate('):
+            return self.block(node.body, st)
+        raise OutOfSubset('with statement')
 
     def st_Pass(self, node, st):
         return [(st, 'fall')]
